@@ -99,10 +99,10 @@ Definition zremove (ms : list bytes) (z : zcoll) : zcoll * Z :=
   (zwith_size v (zsize z - num) z', num).
 
 (* zRemAll *)
-Definition zrem_all (compact : bool) (z : zcoll) : zcoll * Z :=
+Definition zrem_all (lazy : bool) (z : zcoll) : zcoll * Z :=
   let num := zsize z in
   if num =? 0 then (z, 0)
-  else if compact then ({| z_c := Build_coll None (c_elems (z_c z)); z_index := z_index z |}, num)
+  else if lazy then ({| z_c := Build_coll None (c_elems (z_c z)); z_index := z_index z |}, num)
   else
     (* num <= RangeDeleteNum: zRemRangeBytes over the whole score index (each member through zDelItem);
        num > RangeDeleteNum: range deletes of both key ranges.  Same effect when the two indexes agree;
@@ -110,10 +110,10 @@ Definition zrem_all (compact : bool) (z : zcoll) : zcoll * Z :=
     zremove (map snd (index_scan (zver z) (z_index z))) z.
 
 (* zRemRangeBytes over the index entries selected by sel, with offset / count *)
-Definition zrem_range_bytes (compact : bool) (sel : score * bytes -> bool) (offset count : Z) (z : zcoll) : zcoll * reply :=
+Definition zrem_range_bytes (lazy : bool) (sel : score * bytes -> bool) (offset count : Z) (z : zcoll) : zcoll * reply :=
   let total := zsize z in
   if total =? 0 then (z, RInt 0)
-  else if (offset =? 0) && (total <=? count) then let '(z', n) := zrem_all compact z in (z', RInt n)
+  else if (offset =? 0) && (total <=? count) then let '(z', n) := zrem_all lazy z in (z', RInt n)
   else if max_batch_num <? count then (z, RErr)
   else
     let picked := limit offset count (filter sel (index_scan (zver z) (z_index z))) in
@@ -176,19 +176,19 @@ Definition zstep (compact : bool) (ts : Z) (key : bytes) (c : zcmd) (z : zcoll) 
   | ZCremrangebyrank start stop =>
       if negb (key_ok key) then (z, RErr)
       else let '(offset, count) := zparse_limit (zsize z) start stop in
-           zrem_range_bytes compact (fun _ => true) offset count z
+           zrem_range_bytes (lazy_clear compact ts (zver z)) (fun _ => true) offset count z
   | ZCremrangebyscore lo hi =>
       match lo, hi with
       | Some l, Some h =>
           if negb (key_ok key) then (z, RErr)
-          else zrem_range_bytes compact (fun e => in_score l h (fst e)) 0 (-1) z
+          else zrem_range_bytes (lazy_clear compact ts (zver z)) (fun e => in_score l h (fst e)) 0 (-1) z
       | _, _ => (z, RErr)
       end
   | ZCremrangebylex lo hi lopen ropen =>
       if negb (key_ok key) then (z, RErr)
       else
         match lo, hi with
-        | None, None => let '(z', n) := zrem_all compact z in (z', RInt n)
+        | None, None => let '(z', n) := zrem_all (lazy_clear compact ts (zver z)) z in (z', RInt n)
         | _, _ =>
             (* iterate the member keys of the generation in the lex range *)
             let ms := filter (in_lex lo hi lopen ropen) (map fst (scan (zver z) (c_elems (z_c z)))) in
@@ -196,7 +196,7 @@ Definition zstep (compact : bool) (ts : Z) (key : bytes) (c : zcmd) (z : zcoll) 
         end
   | ZCclear =>
       if negb (key_ok key) then (z, RErr)
-      else let '(z', n) := zrem_all compact z in (z', RInt (if 0 <? n then 1 else 0))
+      else let '(z', n) := zrem_all (lazy_clear compact ts (zver z)) z in (z', RInt (if 0 <? n then 1 else 0))
   end.
 
 (* ---------- reads ---------- *)
